@@ -30,7 +30,7 @@ CHECKS = {
         design="§4 C03"),
     "C04": dict(
         category="exploration",
-        technique="compiler sanitizers (gcc ASan+UBSan fatal, clang MSan with uninitialised objects, valgrind memcheck) + canary/NUL/pointer monitors on exact-size argument blocks",
+        technique="compiler sanitizers (gcc ASan+UBSan fatal, clang MSan with uninitialised objects, valgrind memcheck, clang libFuzzer+ASan+UBSan coverage-guided stage) + canary/NUL/pointer monitors on exact-size argument blocks",
         text="No sanitizer report, canary damage, stray pointer, missing NUL or garbage-dependent result on the executed "
              "calls: all entry points x valid/field-mutated/random settings up to 40000 bytes x phrases up to 4096 x "
              "all 16 alignments x hostile integer arguments.",
@@ -89,7 +89,7 @@ CHECKS = {
         design="§4 C11"),
     "C12": dict(
         category="exploration",
-        technique="runtime monitoring: exhaustive bit-flip injectivity over the consumed window + arc4random_buf interposition for the OS-entropy path",
+        technique="runtime monitoring: exhaustive bit-flip injectivity over the consumed window + arc4random_buf interposition for the OS-entropy path + mocked getentropy/getrandom/syscall//dev/urandom fallback chain with fault and short-read schedules (build without arc4random_buf)",
         text="Every single-bit flip inside the bytes the salt encodes changed the salt; size clauses held for nrbytes 0..64 (0..256 thorough); "
              "with rbytes=NULL the OS source was asked once and its bytes alone determined the salt; repeated draws were distinct.",
         note="Bytes a method does not encode are not judged.",
@@ -103,14 +103,14 @@ CHECKS = {
         design="§4 C13"),
     "C14": dict(
         category="exploration",
-        technique="runtime monitoring: link-time malloc/realloc/free ledger over crypt_ra / crypt_gensalt_ra call histories (ASan build)",
+        technique="runtime monitoring: link-time malloc/realloc/free ledger over crypt_ra / crypt_gensalt_ra call histories (ASan build; four further --enable-hashes selections)",
         text="On every executed history from every start class *data stayed a live block of >= *size >= 32768 bytes, grown blocks were "
              "erased before and zero after, results pointed into the block, nothing leaked or was freed twice.",
         note="'Erased before growing' judged only when the recorded size equals the real block size.",
         design="§4 C14"),
     "C15": dict(
         category="fault_enumeration",
-        technique="fault injection at the interposed allocator/mapping layer: every single and double failure position of each corpus call",
+        technique="fault injection at the interposed allocator/mapping layer: every single and double failure position of each corpus call, static entry points also as the first call of a fresh process",
         text="All single and double faults of the malloc/realloc/mmap/munmap request sequence of every corpus call were injected: clean "
              "failure, documented errno, no leak, scratch erased, next call normal.",
         note="Faults inside libc and kernel OOM are out of scope; corpus, not all inputs.",
@@ -126,7 +126,7 @@ CHECKS = {
         category="exploration",
         technique="runtime monitoring: obsolete DES API bound by dlvsym from the fresh shared library and internal DES core, both against nettle DES / a bit-level salted model",
         text="All weight-1/63 key x block pairs and the random pairs agreed with DES, decrypt inverted encrypt, parity and junk bits were "
-             "ignored, static and re-entrant variants agreed, crypt calls did not disturb the static key; salted/iterated core matched the model.",
+             "ignored, static and re-entrant variants agreed, crypt calls did not disturb the static key, a key set on one thread was used by encrypt on another; salted/iterated core matched the model.",
         note="Sampling of the 2^56 x 2^64 space.",
         design="§4 C17"),
     "C18": dict(
@@ -134,7 +134,7 @@ CHECKS = {
         technique="runtime monitoring: exhaustive enumeration of short strings against an independent classifier built from hashes.conf",
         text="crypt_checksalt agreed with the independent classifier on every byte string of length <= 3, on the length-4 printable "
              "strings (all in thorough), on random longer strings and on all hashed settings; preferred method OK and equal to NULL prefix.",
-        note="Exhaustive for the enumerated spaces only; build configurations are C19's.",
+        note="Exhaustive for the enumerated spaces only; six further build configurations are enumerated up to length 3, the rest are C19's.",
         design="§4 C18"),
     "C19": dict(
         category="exploration",
@@ -148,7 +148,7 @@ CHECKS = {
         category="other",
         technique="runtime monitoring: differential execution of a released-ABI client (compat symbol versions, glibc-size crypt_data with canary) against the fresh shared library + layout and symbol-version probes",
         text="struct layout and constants equal the released header's and the stated values; every (symbol, version) the released libcrypt.so.1 "
-             "defines is defined; the old client's transcript is identical with the fresh library and compat symbols equal their modern counterparts.",
+             "defines is defined, also in builds for each --enable-obsolete-api flavour (glibc, alt, owl, suse); the old client's transcript (including setkey;crypt;encrypt histories) is identical with the fresh library and compat symbols equal their modern counterparts.",
         note="x86-64 glibc only; glibc-era binaries are emulated via .symver, not available.",
         design="§4 C20"),
 }
